@@ -47,6 +47,65 @@ def pick_names(rng, n):
     return names
 
 
+IDENT_RE = __import__("re").compile(r"[A-Za-z_][A-Za-z0-9_]*\Z")
+
+
+def invented(t):
+    """(name of the node the reader returns for tree t, names of the gates it creates in callback order); None where the name
+    depends on a constant node.  Suffixes of uid are ignored: these are the names the reader tries first."""
+    k = t[0]
+    if k == "PId":
+        return t[1], []
+    if k == "PConst":
+        return None, []
+    if k in ("PParen", "UPrim", "AUn", "XAnd", "OXor", "COr"):
+        return invented(t[1])
+    if k == "UNot":
+        r, l = invented(t[1])
+        n = None if r is None else "not_" + r
+        return n, l + [n]
+    if k in ("AAnd", "XXor", "XXnor", "OOr"):
+        ra, la = invented(t[1])
+        rb, lb = invented(t[2])
+        if k in ("XXor", "XXnor") and ra is not None and ra == rb:
+            return None, la + lb
+        n = None if ra is None or rb is None else {"AAnd": "and", "XXor": "xor", "XXnor": "xnor", "OOr": "or"}[k] + f"_{ra}_{rb}"
+        return n, la + lb + [n]
+    if k == "CTern":
+        parts = [invented(x) for x in t[1:4]]
+        made = [n for _, l in parts for n in l]
+        if any(r is None for r, _ in parts):
+            return None, made + [None]
+        io = "_".join(r for r, _ in parts)
+        return "mux_o_" + io, made + ["mux_n_" + io, "mux_a0_" + io, "mux_a1_" + io, "mux_o_" + io]
+    raise ValueError(k)
+
+
+def surviving_names(stmt):
+    """invented names of nodes of a statement that stay in the circuit (the top gate of an assign is renamed to the lvalue)"""
+    out = []
+    if stmt[0] == "assign":
+        for _, e in stmt[1]:
+            r, made = invented(e)
+            out += made[:-1] if made and made[-1] == r else made
+    elif stmt[0] == "inst":
+        for _, (kind, ps) in stmt[2]:
+            for p in (ps[1:] if kind == "pos" else [e for _, e in ps if e is not None]):
+                out += invented(p)[1]
+    return [n for n in out if n and IDENT_RE.match(n) and n not in vu.KEYWORDS]
+
+
+def rename_net(x, old, new):
+    """rename a net in statements / name lists; inside expression trees only PId leaves are names"""
+    if isinstance(x, list):
+        if x and isinstance(x[0], str) and x[0] in vu.LEVEL:
+            if x[0] == "PId":
+                return ["PId", new if x[1] == old else x[1]] + x[2:]
+            return [x[0]] + [rename_net(y, old, new) if isinstance(y, list) else y for y in x[1:]]
+        return [rename_net(y, old, new) for y in x]
+    return new if x == old else x
+
+
 def gen_module(rng, tier="quick"):
     n_in = rng.randint(1, 4)
     n_drv = rng.randint(1, 6)
@@ -144,6 +203,33 @@ def gen_module(rng, tier="quick"):
         stmts.append(["inst", bn, [[f"u{b}", ["named", ps]]]])
     if any(vu.tree_has_x(s) for s in stmts):
         free += 1
+    # a net that is first mentioned after an earlier statement made a surviving inner node of exactly that name
+    if rng.random() < 0.6:
+        all_ids = set(vu.tree_ids(stmts)) | set(inputs)
+        cands = []
+        for i, st in enumerate(stmts):
+            later = [d for t in stmts[i + 1:] for d in ([lv for lv, _ in t[1]] if t[0] == "assign" else
+                                                        [vu.as_id(ps[0]) for _, (kd, ps) in t[2] if kd == "pos" and t[1] in vu.PRIMS])]
+            early = set(vu.tree_ids(stmts[:i + 1]))
+            later = [d for d in later if d and d not in early]
+            for nm in surviving_names(st):
+                if nm not in all_ids and later:
+                    cands.append((nm, later))
+        fresh = [nm for st in stmts for nm in surviving_names(st) if nm not in all_ids]
+        if fresh and (not cands or rng.random() < 0.4):
+            # no later net to rename: define a new net of that name after everything else, with a function of its own
+            nm = rng.choice(fresh)
+            stmts.append(["assign", [[nm, vu.gen_cond(rng, rng.randint(0, 1), inputs, None, p_tern=0.0, p_const=0.0)]]])
+            wires.append(nm)
+            driven.append(nm)
+            avail.append(nm)
+        elif cands:
+            nm, later = rng.choice(cands)
+            oldn = rng.choice(later)
+            stmts = rename_net(stmts, oldn, nm)
+            wires = rename_net(wires, oldn, nm)
+            driven = rename_net(driven, oldn, nm)
+            avail = rename_net(avail, oldn, nm)
     # sometimes an undriven net (placeholder buffer)
     # outputs
     cand = wires + inputs
@@ -422,6 +508,8 @@ def classify(case, obs):
     ids = set(vu.tree_ids(m["items"])) | set(m["ports"])
     if ids & set(TRICKY):
         tags.append("synthetic-like-names")
+    if any(n in ids for it in m["items"] for n in surviving_names(it)):
+        tags.append("net-named-like-surviving-inner-node")
     if any(n.startswith("\\") for n in ids):
         tags.append("escaped")
     if any(it[0] == "inst" and it[1] not in vu.PRIMS for it in m["items"]):
